@@ -85,6 +85,16 @@ class Gfa1Doc:
         return out
 
 
+def _repeated_header_tag(rng, d, canonical):
+    """the same custom tag (one datatype) defined on several H lines: documented multi-value header."""
+    if rng.random() < 0.25:
+        used = set(t[0] for h in d.headers for t in h)
+        name = V.tagname(rng, used)
+        dt = rng.choice(V.DATATYPES)
+        for _ in range(rng.randint(2, 3)):
+            d.headers.append([(name, dt, V.tag_value_text(rng, dt, canonical))])
+
+
 def link_key(l):
     """canonical key of a link modulo complement (ignoring overlap)."""
     a = (l["f"], l["fo"], l["t"], l["to"])
@@ -113,6 +123,7 @@ def gen_gfa1(rng, canonical=True, nseg=None, nlinks=None, nconts=None, npaths=No
                 ht.append(t)
             if ht:
                 d.headers.append(ht)
+        _repeated_header_tag(rng, d, canonical)
     if comments:
         for _ in range(rng.choice([0, 0, 1, 2])):
             d.comments.append(rng.choice(["# comment", "#no space", "#  two spaces x:i:1", "# a\tb", "#"]))
@@ -431,6 +442,7 @@ def gen_gfa2(rng, canonical=True, nseg=None, nedges=None, ngaps=None, nfrags=Non
                 ht.append(t)
             if ht:
                 d.headers.append(ht)
+        _repeated_header_tag(rng, d, canonical)
     if comments:
         for _ in range(rng.choice([0, 0, 1, 2])):
             d.comments.append(rng.choice(["# comment", "#no space", "#  two spaces", "# a\tb", "#"]))
